@@ -2,7 +2,7 @@
 import ast
 import re
 
-from .model import AnalysisError, call_name, enclosing_def, is_inf_literal, loc, unparse
+from .model import AnalysisError, call_name, enclosing_def, is_inf_literal, is_self_attr, loc, unparse
 from .paths import Walker, show_path
 
 NODE_ROOT = "Node"
